@@ -1,7 +1,7 @@
 (* C02 — one backward step exactly undoes one forward step.
    Statements only; model: model/Yee.v; lemmas: proofs/Yee_reverse.v *)
 From Coq Require Import List Arith QArith Qcanon.
-From FV Require Import base.Scalar base.Cplx model.Yee model.YeeExec proofs.Yee_reverse proofs.YeeExec_proofs.
+From FV Require Import base.Scalar base.Cplx model.Yee model.YeeExec model.YeeFull proofs.Yee_reverse proofs.YeeExec_proofs proofs.Yee_full_reverse.
 Import ListNotations.
 
 (* reversible_scene K sc: no PML; 0/1 PEC and PMC masks; for every cell and component the electric and
@@ -34,6 +34,18 @@ Theorem C02_executed_is_backward : forall (K : Fld) (sc : scene K) s i j k,
 Proof. exact backwardX_in_box. Qed.
 Print Assumptions C02_executed_is_backward.
 
+(* The fully anisotropic LOSSLESS tiers (model/YeeFull.v: the "Full anisotropic case" branches of update_E / update_H and of their
+   reverse versions, with sigma = None so that A = I and B = c * inverse tensor): for ANY 3x3 inverse permittivity and / or inverse
+   permeability tensor field - symmetric or not -, any source terms, ghost factors and 0/1 wall masks, one backward step undoes one
+   forward step on every cell of the box.  A tier given as None is the iso / diagonal tier of model/Yee.v (conductivities allowed,
+   1 +- f <> 0 as in reversible_scene). *)
+Theorem C02_full_tensor_backward_forward_id : forall (K : Fld) (sc : scene K), reversible_scene K sc ->
+  forall (ie9 im9 : option (T9 K)) s, wall_compatible K sc s ->
+  let s' := backward_full K sc ie9 im9 (forward_full K sc ie9 im9 s) in
+  tstep s' = tstep s /\ veq_box K sc (fE s') (fE s) /\ veq_box K sc (fH s') (fH s).
+Proof. exact backward_forward_full_id. Qed.
+Print Assumptions C02_full_tensor_backward_forward_id.
+
 (* ---- non-vacuity: a lossy periodic 2x2x2 box with a source ---- *)
 Definition one3 : R3 QcF := fun _ _ _ => 1%Qc.
 Definition half3 : R3 QcF := fun _ _ _ => q 1 1024.
@@ -58,3 +70,11 @@ Proof.
   - vm_compute. reflexivity.
   - vm_compute. reflexivity.
 Qed.
+
+(* non-vacuity of the full-tensor statement: a non-symmetric inverse permittivity tensor on the same box *)
+Definition ex_T9 : T9 QcF := fun r s _ _ _ => if Nat.eqb r s then q 1 2 else if Nat.ltb r s then q 1 8 else q (-1) 16.
+Example C02_full_nonvacuous :
+  cq_eqb (vy (fE (forward_full QcF ex_scene (Some ex_T9) None ex_state)) 1%nat 0%nat 1%nat) (vy (fE ex_state) 1%nat 0%nat 1%nat) = false /\
+  cq_eqb (vy (fE (backward_full QcF ex_scene (Some ex_T9) None (forward_full QcF ex_scene (Some ex_T9) None ex_state))) 1%nat 0%nat 1%nat)
+         (vy (fE ex_state) 1%nat 0%nat 1%nat) = true.
+Proof. split; vm_compute; reflexivity. Qed.
